@@ -26,12 +26,28 @@ import (
 // "promise-behind-data": the server sends DATA on stream 1 (held by the client's zero
 // stream window), then PUSH_PROMISE on stream 1 promising stream 2, then HEADERS on
 // stream 2. A client must have seen the promise before anything arrives on stream 2.
+//
+// "tail-held": the server sends Frames x 10 000 octets and END_STREAM - more than the
+// client's window admits, the relay takes it all and returns the credit -, GOAWAY, and
+// ends its side cleanly; the client grants credit afterwards. What the relay accepted must
+// still arrive.
+//
+// "negative-window": the client has consumed part of its window and lowers
+// SETTINGS_INITIAL_WINDOW_SIZE so far that the stream window becomes negative; the server
+// then ends the stream with a frame that carries no flow-controlled octets (Last:
+// trailers, rst, empty-data). Nothing is queued in front of it; it must arrive.
+//
+// "unknown-frame": an extension frame (type Frames, e.g. 0xc ORIGIN, 0x10
+// PRIORITY_UPDATE) from the client or the server (FromServer) in the middle of a
+// request; RFC 7540 4.1 has unknown types ignored. The exchange must go on.
 type EdgeCase struct {
-	Kind   string `json:"kind"`
-	Frames int    `json:"frames,omitempty"`
-	Stall  bool   `json:"stall,omitempty"`
-	GoAway bool   `json:"goaway,omitempty"`
-	Table  int    `json:"table,omitempty"`
+	Kind       string `json:"kind"`
+	Last       string `json:"last,omitempty"`
+	FromServer bool   `json:"from_server,omitempty"`
+	Frames     int    `json:"frames,omitempty"`
+	Stall      bool   `json:"stall,omitempty"`
+	GoAway     bool   `json:"goaway,omitempty"`
+	Table      int    `json:"table,omitempty"`
 }
 
 func runEdgeOnce(c EdgeCase, bound time.Duration) (v kit.Verdict, slow bool) {
@@ -190,6 +206,119 @@ func runEdgeOnce(c EdgeCase, bound time.Duration) (v kit.Verdict, slow bool) {
 			}
 		}
 
+	case "tail-held":
+		cl.WriteHeaders(h2kit.HeadersSpec{Stream: 1, Pad: -1, EndStream: true, Fields: neutralReq})
+		if !sv.Wait(bound, func(r *h2kit.Rec) bool { return len(r.Streams[1]) > 0 || r.Done }) {
+			return kit.Failf("C08/stream-history/c2s/request-headers-never-arrived", "request HEADERS did not reach the server within %v", bound), true
+		}
+		total := 10000 * c.Frames
+		sv.WriteHeaders(h2kit.HeadersSpec{Stream: 1, Pad: -1, Fields: neutralResp})
+		sent := 0
+		for i := 0; i < c.Frames; i++ {
+			// the server stays inside its windows; the relay refills them as it accepts the data
+			need := int64(sent + 10000)
+			if !sv.Wait(bound, func(r *h2kit.Rec) bool {
+				return r.Done || (65535+int64(r.WU[0]) >= need && 65535+int64(r.WU[1]) >= need)
+			}) {
+				return kit.Failf("C08/completeness/s2c/sender-starved-of-connection-credit", "the relay did not return credit for %d octets within %v", sent, bound), true
+			}
+			sv.WriteData(1, kit.Bytes(uint64(i), 10000), -1, i == c.Frames-1)
+			sent += 10000
+		}
+		// all of it has been taken off the server's hands (credit for everything but the
+		// last frame, whose stream is finished, has come back)
+		sv.Wait(bound, func(r *h2kit.Rec) bool { return int(r.WU[0]) >= total || r.Done })
+		sv.WriteGoAway(1, 0, nil)
+		s.ServerTLS().CloseWrite()
+		time.Sleep(50 * time.Millisecond) // (sets the scene: the relay has read to the end of the server's stream)
+		// the client, which has 65 535 octets so far, now makes room
+		cl.WriteWindowUpdate(0, 1<<20)
+		cl.WriteWindowUpdate(1, 1<<20)
+		ended := func(r *h2kit.Rec) bool {
+			evs := r.Streams[1]
+			return r.DataBytes[1] >= total && len(evs) > 0 && evs[len(evs)-1].End
+		}
+		cl.Wait(bound, func(r *h2kit.Rec) bool { return ended(r) || r.Done })
+		ok, got := false, 0
+		cl.With(func(r *h2kit.Rec) { ok, got = ended(r), r.DataBytes[1] })
+		if !ok {
+			if !done(cl) {
+				slow = true
+			}
+			v.Addf("C08/stream-history/sender-closes-while-data-waits-for-the-receivers-window/frames-missing", "the server sent %d octets and END_STREAM (the relay accepted and credited all of it), GOAWAY, and closed its side; the client, after granting credit, got %d octets [%s] and then %s", total, got, kinds(cl, 1), map[bool]string{true: "the end of its connection", false: "nothing for " + bound.String()}[done(cl)])
+		}
+
+	case "negative-window":
+		cl.WriteHeaders(h2kit.HeadersSpec{Stream: 1, Pad: -1, EndStream: true, Fields: neutralReq})
+		if !sv.Wait(bound, func(r *h2kit.Rec) bool { return len(r.Streams[1]) > 0 || r.Done }) {
+			return kit.Failf("C08/stream-history/c2s/request-headers-never-arrived", "request HEADERS did not reach the server within %v", bound), true
+		}
+		sv.WriteHeaders(h2kit.HeadersSpec{Stream: 1, Pad: -1, Fields: neutralResp})
+		sv.WriteData(1, kit.Bytes(1, 10000), -1, false)
+		if !cl.Wait(bound, func(r *h2kit.Rec) bool { return r.DataBytes[1] >= 10000 || r.Done }) {
+			return kit.Failf("C08/stream-history/s2c/frames-missing", "10 000 octets of DATA did not reach the client within %v", bound), true
+		}
+		// 55 535 octets of window left; lowering the initial window by 64 535 makes it -9 000
+		sv.SetAutoAck(true)
+		acks := 0
+		cl.With(func(r *h2kit.Rec) { acks = r.Acks })
+		cl.WriteSettings(h2kit.Setting{ID: 4, Val: 1000})
+		if !cl.Wait(bound, func(r *h2kit.Rec) bool { return r.Acks > acks || r.Done }) {
+			return kit.Failf("C08/settings/c2s/ack-count-differs", "the SETTINGS acknowledgement did not come back within %v", bound), true
+		}
+		switch c.Last {
+		case "trailers":
+			sv.WriteHeaders(h2kit.HeadersSpec{Stream: 1, Pad: -1, EndStream: true, Fields: []h2kit.Field{{N: "x-status", V: "done", S: true}}})
+		case "rst":
+			sv.WriteRST(1, 8)
+		case "empty-data":
+			sv.WriteData(1, nil, -1, true)
+		}
+		arrived := func(r *h2kit.Rec) bool {
+			evs := r.Streams[1]
+			if len(evs) == 0 {
+				return false
+			}
+			l := evs[len(evs)-1]
+			return (c.Last == "rst" && l.Kind == "R") || (c.Last == "trailers" && l.Kind == "H" && l.End && len(evs) > 2) || (c.Last == "empty-data" && l.Kind == "D" && l.End)
+		}
+		if !cl.Wait(bound, func(r *h2kit.Rec) bool { return arrived(r) || r.Done }) || done(cl) {
+			v.Addf("C08/end-stream/zero-size-frame-on-negative-stream-window/frame-held-back", "the client lowered SETTINGS_INITIAL_WINDOW_SIZE so that stream 1's window is -9 000; the server then ended the stream with %s (no flow-controlled octets, nothing queued in front of it); the client got [%s] and nothing more for %v", c.Last, kinds(cl, 1), bound)
+			slow = !done(cl)
+		}
+
+	case "unknown-frame":
+		from, to, dir := cl, sv, "c2s"
+		if c.FromServer {
+			from, to, dir = sv, cl, "s2c"
+		}
+		cl.WriteHeaders(h2kit.HeadersSpec{Stream: 1, Pad: -1, Fields: neutralReq})
+		if !sv.Wait(bound, func(r *h2kit.Rec) bool { return len(r.Streams[1]) > 0 || r.Done }) {
+			return kit.Failf("C08/stream-history/c2s/request-headers-never-arrived", "request HEADERS did not reach the server within %v", bound), true
+		}
+		sv.WriteHeaders(h2kit.HeadersSpec{Stream: 1, Pad: -1, Fields: neutralResp})
+		from.WriteRaw(uint8(c.Frames), 0, 0, []byte("\x00\x13https://example.com"))
+		from.WriteRaw(uint8(c.Frames), 0, 1, []byte("u=3"))
+		// the exchange goes on in both directions
+		cl.WriteData(1, kit.Bytes(1, 500), -1, true)
+		sv.WriteData(1, kit.Bytes(2, 700), -1, true)
+		okS := sv.Wait(bound, func(r *h2kit.Rec) bool { return r.DataBytes[1] >= 500 || r.Done })
+		okC := cl.Wait(bound, func(r *h2kit.Rec) bool { return r.DataBytes[1] >= 700 || r.Done })
+		var gotS, gotC, unknown int
+		sv.With(func(r *h2kit.Rec) { gotS = r.DataBytes[1] })
+		cl.With(func(r *h2kit.Rec) { gotC = r.DataBytes[1] })
+		to.With(func(r *h2kit.Rec) { unknown = r.Unknown })
+		if !okS || !okC || gotS < 500 || gotC < 700 {
+			if done(cl) || done(sv) {
+				v.Addf("C08/session/"+dir+"-frame-of-unknown-type/relay-session-aborted", "an extension frame of type 0x%x (connection and stream 1) was sent %s in the middle of a request; the relay ended the session: the server got %d of 500 octets, the client %d of 700", c.Frames, dir, gotS, gotC)
+			} else {
+				v.Addf("C08/stream-history/"+dir+"-frame-of-unknown-type/frames-missing", "after an extension frame of type 0x%x the server got %d of 500 octets, the client %d of 700 within %v", c.Frames, gotS, gotC, bound)
+				slow = true
+			}
+		} else if unknown > 2 {
+			v.Addf("C08/stream-history/"+dir+"-frame-of-unknown-type/frames-invented", "2 extension frames sent, %d arrived", unknown)
+		}
+
 	case "promise-behind-data":
 		cl.WriteHeaders(h2kit.HeadersSpec{Stream: 1, Pad: -1, EndStream: true, Fields: neutralReq})
 		if !sv.Wait(bound, func(r *h2kit.Rec) bool { return len(r.Streams[1]) > 0 || r.Done }) {
@@ -292,7 +421,26 @@ func edgeCases(yield func(EdgeCase) bool) {
 			return
 		}
 	}
-	yield(EdgeCase{Kind: "promise-behind-data"})
+	if !yield(EdgeCase{Kind: "promise-behind-data"}) {
+		return
+	}
+	for _, frames := range []int{7, 10} {
+		if !yield(EdgeCase{Kind: "tail-held", Frames: frames}) {
+			return
+		}
+	}
+	for _, last := range []string{"trailers", "rst", "empty-data"} {
+		if !yield(EdgeCase{Kind: "negative-window", Last: last}) {
+			return
+		}
+	}
+	for _, typ := range []int{0xc, 0x10} {
+		for _, fromServer := range []bool{false, true} {
+			if !yield(EdgeCase{Kind: "unknown-frame", Frames: typ, FromServer: fromServer}) {
+				return
+			}
+		}
+	}
 }
 
 // TestEdgeCollect prints every case's verdict (development aid).
